@@ -81,6 +81,10 @@ def gen(tape: Tape, tier: str) -> dict:
             kw["fill_value"] = float(kw["fill_value"])
         case["kwargs"] = enc_value(kw)
         case["meta"]["custom"] = True
+        # numpy labels only: with unknown dask labels flox takes the grouped combine, which calls a *callable*
+        # combine with the grouped signature - the user aggregations here follow the simple-combine signature
+        case["by_dask"] = False
+        case["by_chunks"] = None
     case["crash_points"] = "all" if tier == "thorough" else 3
     # half of the runs are 'light': one execution with every task and every result cloudpickled (plus the
     # run's faults) against the sync baseline - cheap, so many more distinct graphs meet the pickle monitor
